@@ -184,6 +184,8 @@ TOPLEVEL = [
     ("duplicate-parameter", "fn q17(x: u8, x: u8) -> u8 { x }", "let bad = q17(w17a, w17a);"),
     ("unknown-identifier", "fn q17(x: Nowhere17) -> u8 { 1u8 }", "let bad = 1u8;"),
     ("unknown-identifier", "struct Q17 { f: Nowhere17 }", "let bad = 1u8;"),
+    ("field-count", "struct Q17 { a: u8, a: u16 }", "let bad = 1u8;"),
+    ("field-count", "struct Q17 { a: u8, b: bool, a: u8 }", "let bad = Q17 { a: w17a, b: w17t };"),
     ("operand-types", "const K17: u8 = 5u16;", "let bad = K17;"),
     # a constant may refer to constants declared before it only
     ("unknown-identifier", "const K17: u8 = L17;\nconst L17: u8 = 1u8;", "let bad = K17;"),
